@@ -81,6 +81,7 @@ func isAuditInit(fn *ssa.Function) bool {
 }
 
 func runC06(c *an.Ctx) {
+	r7FactoriesFresh(c, "R1")
 	shared := c06Shared(c)
 	var roots []*ssa.Function
 	if txT := c.P.LookupType(pkgWAF, "Transaction"); txT != nil {
@@ -151,6 +152,18 @@ func runC06(c *an.Ctx) {
 						report(fn, in, "map update", why)
 					}
 				case *ssa.Call:
+					// a container with its own lock (sync.Map) is race-free, but what a transaction stores
+					// into a WAF-owned one is still seen by every later transaction of that WAF
+					// (the process-wide pattern cache of internal/memoize is shared by design: C13.R3 decides its discipline)
+					if sc := x.Call.StaticCallee(); sc != nil && sc.Signature.Recv() != nil && strings.HasSuffix(sc.Signature.Recv().Type().String(), "sync.Map") && relPkg(fn) != "internal/memoize" {
+						switch sc.Name() {
+						case "Store", "LoadOrStore", "LoadAndDelete", "Delete", "Swap", "CompareAndSwap", "CompareAndDelete", "Clear":
+							nWrites++
+							if s, why := an.SharedRoot(x.Call.Args[0], shared); s {
+								report(fn, in, "sync.Map."+sc.Name(), why)
+							}
+						}
+					}
 					if bi, ok := x.Call.Value.(*ssa.Builtin); ok {
 						switch bi.Name() {
 						case "delete", "copy", "clear":
